@@ -44,6 +44,8 @@ pub struct RecState {
     pub cursor_at_flush: Vec<(u16, u16)>,
     /// a resized terminal: `width()` returns this instead of the width given at creation
     pub width_override: Option<u16>,
+    /// kind of the injected error (`Other` unless set)
+    pub fail_kind: Option<io::ErrorKind>,
 }
 
 /// Recording (and optionally failing) terminal around a `vt100::Parser` with scrollback.
@@ -61,7 +63,7 @@ impl Recorder {
         let mut st = self.st.lock().unwrap();
         let k = st.calls;
         st.calls += 1;
-        if let Some(f) = st.fail_at { if k == f || (st.sticky && k > f) { st.failed += 1; return Err(io::Error::new(io::ErrorKind::Other, "injected")); } }
+        if let Some(f) = st.fail_at { if k == f || (st.sticky && k > f) { st.failed += 1; let kind = st.fail_kind.unwrap_or(io::ErrorKind::Other); return Err(io::Error::new(kind, "injected")); } }
         if let Op::Flush = op {
             st.flushes += 1;
             if st.parser.is_some() {
@@ -77,6 +79,7 @@ impl Recorder {
     /// the terminal is resized: later `width()` queries return `w`
     pub fn set_width(&self, w: u16) { self.st.lock().unwrap().width_override = Some(w); }
     pub fn failed(&self) -> usize { self.st.lock().unwrap().failed }
+    pub fn set_fault_kind(&self, kind: io::ErrorKind) { self.st.lock().unwrap().fail_kind = Some(kind); }
     pub fn set_fault(&self, k: usize, sticky: bool) { let mut st = self.st.lock().unwrap(); st.fail_at = Some(k); st.sticky = sticky; }
     pub fn flushes(&self) -> usize { self.st.lock().unwrap().flushes }
     pub fn calls(&self) -> usize { self.st.lock().unwrap().calls }
